@@ -60,4 +60,33 @@ theorem hidden_inventory : ∀ g ∈ Gen.globals, g ∈ reviewedInventory := by 
 (an `example`, not an obligation: a harmless removal must not raise an alarm) -/
 example : reviewedInventory.length = 22 := rfl
 
+/-! ### mutable default argument values
+
+A parameter that defaults to a list / dict / set display is ONE object per process, shared by every call that omits
+the argument: the classic place for state to survive between runs.  Review of every entry of the current tree:
+  copied before use      IterationStatus.__init__ collected_ts (deepcopy), TraceView.__init__ trace_events / other_data /
+                         stack_frames / samples (list(..) / dict(..)), TraceWarning.__init__ update_fn (comprehension)
+  only read              AbstractContext.issue_warning data (len, handed to update), TraceWarning.update data (items())
+  stored but never used  DurationEvents.__init__ / CounterEvents.__init__ args (stored as `self.args`; every construction
+                         of the package goes through `AbstractEventType.from_dict`, which always passes `args`) -/
+
+def reviewedDefaults : List (String × String × String) := [
+  ("pipeline.context", "AbstractContext.issue_warning", "data"),
+  ("pipeline.iteration_detect", "IterationStatus.__init__", "collected_ts"),
+  ("trace_view", "TraceView.__init__", "trace_events"),
+  ("trace_view", "TraceView.__init__", "other_data"),
+  ("trace_view", "TraceView.__init__", "stack_frames"),
+  ("trace_view", "TraceView.__init__", "samples"),
+  ("trace_view", "DurationEvents.__init__", "args"),
+  ("trace_view", "CounterEvents.__init__", "args"),
+  ("types", "TraceWarning.__init__", "update_fn"),
+  ("types", "TraceWarning.update", "data")
+]
+
+/-- **Every mutable default argument value of the package is on the reviewed list** (re-decided on the list the
+translator extracts from the current source on every run): a new `def f(x, cache={})` anywhere breaks the obligation. -/
+theorem mutable_defaults_reviewed : ∀ d ∈ Gen.mutableDefaults, d ∈ reviewedDefaults := by decide +kernel
+
+example : Gen.mutableDefaults.length = 10 := rfl
+
 end AiuVerif.C14
